@@ -607,6 +607,9 @@ func genTree(r *verifsim.SplitMix, sp *txSpec, maxFiles int, plainNames bool) {
 		name := fmt.Sprintf("f%d.bin", i)
 		if !plainNames {
 			name = genName(r, i)
+			if strings.Contains(name, "%E9") && !(sp.Prop == "C01" || sp.Prop == "C03" || sp.Prop == "C17") {
+				name = fmt.Sprintf("f%d.bin", i)
+			}
 		}
 		d := dirs[r.Intn(len(dirs))]
 		p := name
@@ -637,8 +640,10 @@ func genTree(r *verifsim.SplitMix, sp *txSpec, maxFiles int, plainNames bool) {
 	if r.Chance(1, 6) {
 		sp.Dirs = append(sp.Dirs, "sub/empty/nested")
 	}
-	if !plainNames && r.Chance(1, 15) {
-		sp.Dirs = append(sp.Dirs, "d%E9") // an empty directory whose name is not valid UTF-8
+	if !plainNames && r.Chance(1, 15) && (sp.Prop == "C01" || sp.Prop == "C03" || sp.Prop == "C17") {
+		// an empty directory whose name is not valid UTF-8 (only where the listed finding
+		// about such names is the subject: it would make every other oracle fail the same way)
+		sp.Dirs = append(sp.Dirs, "d%E9")
 	}
 	if len(sp.Files) > 0 && r.Chance(1, 3) {
 		// an empty directory whose path is a string prefix of a sibling entry ("logs" next to "logs.txt", "run1" next to "run10")
